@@ -3,7 +3,7 @@ CONSTANTS
   CallBlocks = {}
   LogBlocks = {}
   Extra = TRUE
-  MaxLen = 4
+  MaxLen = 3
   Latests = {0, 627}
   Rule = 127
   Seed = TRUE
